@@ -225,7 +225,11 @@ func init() {
 			return IfaceV{} // environment comes from the job configuration (os.Getenv intrinsic)
 		},
 		"time.Now": func(w *Worker, fn *ssa.Function, _ []Value, _ ssa.CallInstruction) Value {
-			return w.zero(fn.Signature.Results().At(0).Type())
+			// strictly increasing instants: Time{wall: 0, ext: seconds, loc: nil}
+			t := w.zero(fn.Signature.Results().At(0).Type()).(StructV)
+			w.clock++
+			t[1] = w.B.Const(uint64(w.clock), 64)
+			return t
 		},
 		"(time.Time).Add": func(w *Worker, _ *ssa.Function, args []Value, _ ssa.CallInstruction) Value { return args[0] },
 		"time.After":      func(w *Worker, _ *ssa.Function, _ []Value, _ ssa.CallInstruction) Value { return OpaqueV{"timer channel"} },
